@@ -215,7 +215,8 @@ def pipeline(spec, rng, nprng, d, repo):
     n = len(np.load(paths["full_array"]))
     # arbitrary per-cell energies: interaction energies around zero, or total (QM-style) energies with a huge common offset
     offset = spec.get("energy_offset", 0.0)
-    energies = offset + nprng.uniform(-20, 20, size=n)
+    spread = spec.get("energy_spread", 20.0)
+    energies = offset + nprng.uniform(-spread, spread, size=n)
     epath = os.path.join(d, "energy.xvg")
     write_energy(epath, energies, rng)
     # ---- stage 2: files -> rate matrix -------------------------------------------------------------------
